@@ -50,14 +50,23 @@ class Meta(dict):
         return super().__getitem__(item)
 
     def update(self, *args, **kwargs):
+        other = {}
         if args:
             if len(args) > 1:
                 raise ValueError('Only one argument can be input')
-            other = dict(args[0])
-            for key in other:
-                self[key] = other[key]
-        for key in kwargs:
-            self[key] = kwargs[key]
+            other.update(dict(args[0]))
+        other.update(kwargs)
+
+        # validate every key before the first insertion so that a
+        # rejected update leaves the object unchanged
+        for key in other:
+            mapped_key = self.key_mapping.get(key, key)
+            if mapped_key not in self.valid_keys:
+                raise KeyError(f'{mapped_key} is not a valid key for this '
+                               'class.')
+
+        for key in other:
+            self[key] = other[key]
 
     def __ior__(self, other):
         self.update(other)
